@@ -1049,6 +1049,9 @@ package collection
 //@   loop 0: invariant wheelOK(tw) && timersOK(tw) && liveOK(tw) && itemsOK(tw)
 //@   call arm tw.setChannel: assume task.delay > 0 && task.key != nil && task.circle == 0 && task.diff == 0 && !task.removed
 //@   call arm tw.moveChannel: assume task.delay > 0 && task.key != nil
-//@   call removeTask#0: assert arg_key == key
-//@   call moveTask#0: assert arg_task.key == task.key && arg_task.delay == task.delay
+//@   ghost at arm tw.moveChannel: mk = task.key
+//@   ghost at arm tw.moveChannel: md = task.delay
+//@   ghost at arm tw.removeChannel: rk = key
+//@   call removeTask#0: assert arg_key == rk
+//@   call moveTask#0: assert arg_task.key == mk && arg_task.delay == md
 //@   call drainAll#0: assert arg_fn == fn
